@@ -237,6 +237,29 @@ theorem withinEdit_ok (hH : SliceHyp H) (env : Env) (w : List Char) (d : Nat) (h
       simp only [List.length_cons]
       split <;> omega
 
+theorem closure_ok (hH : SliceHyp H) (env : Env) (c : Closure) : MOKh H (tokAtomE (c.test env)) := by
+  intro src ts hh
+  cases ts with
+  | nil => exact ⟨0, rfl, Nat.le_refl _⟩
+  | cons t ts =>
+    have ht := hH.inb src _ hh t (by simp)
+    have hb : ∃ b, c.test env src t = .ok b := by
+      cases c <;> simp only [Closure.test]
+      · split
+        · exact ⟨_, rfl⟩
+        · rw [getContent_textOf src t ht]; exact ⟨_, rfl⟩
+      · split
+        · exact ⟨_, rfl⟩
+        · split
+          · exact ⟨_, rfl⟩
+          · rw [getContent_textOf src t ht]; exact ⟨_, rfl⟩
+      · exact ⟨_, rfl⟩
+    obtain ⟨b, eb⟩ := hb
+    simp only [tokAtomE, eb]
+    refine ⟨_, rfl, ?_⟩
+    simp only [List.length_cons]
+    split <;> omega
+
 end leaves
 
 /-! ## combinators -/
@@ -644,6 +667,7 @@ theorem leaf_okh {H : List Char → List Tok → Prop} (hH : SliceHyp H) (env : 
   | .nominalPhrase, _ => nominalPhrase_ok env
   | .impliesQuantity, _ => impliesQuantity_ok hH env
   | .splitCompound bit, h => splitCompound_ok hH env bit h
+  | .closure c, _ => closure_ok hH env c
 
 mutual
 /-- **the contract is a theorem for every tree over the real leaves** -/
@@ -879,6 +903,14 @@ theorem exactWordTest_shift (w : List Char) (P D : List Char) (t : Tok) (j : Nat
 theorem exactWordTest_left (w : List Char) (P D : List Char) (t : Tok) (h : t.span.stop ≤ P.length) :
     exactWordTest w (P ++ D) t = exactWordTest w P t := by
   simp only [exactWordTest, getContent_left' P D t.span h]
+
+theorem closureTest_shift (env : Env) (c : Closure) (P D : List Char) (t : Tok) (j : Nat) :
+    c.test env (P ++ D) (shTok P.length j t) = c.test env D t := by
+  cases c <;> simp only [Closure.test, hasFlag_shift, shTok_span, getContent_shift']
+
+theorem closureTest_left (env : Env) (c : Closure) (P D : List Char) (t : Tok) (h : t.span.stop ≤ P.length) :
+    c.test env (P ++ D) t = c.test env P t := by
+  cases c <;> simp only [Closure.test, hasFlag_left env P D t _ h, getContent_left' P D t.span h]
 
 theorem withinEdit_local (env : Env) (w : List Char) (d : Nat) : MLocal (withinEditAtom env w d) where
   left := by
@@ -1440,6 +1472,7 @@ theorem leaf_local (env : Env) : (l : Leaf) → l.Loc → MLocal (l.matcher env)
   | .nominalPhrase, _ => nominalPhrase_local env
   | .impliesQuantity, _ => impliesQuantity_local env
   | .splitCompound bit, _ => splitCompound_local env bit
+  | .closure c, _ => tokAtomE_local _ (fun P D t h => closureTest_left env c P D t h) (fun P D t j => closureTest_shift env c P D t j)
 
 mutual
 /-- no `then_strict` / `TokenKindPatternGroup` key is a PAIRED quote (its `twin_loc` is a token index of the
@@ -2098,6 +2131,7 @@ theorem leaf_mc (env : Env) : (l : Leaf) → MC (l.matcher env)
   | .nominalPhrase => nominalPhrase_mc env
   | .impliesQuantity => impliesQuantity_mc env
   | .splitCompound bit => splitCompound_mc env bit
+  | .closure _ => tokAtomE_mc _
 
 mutual
 /-- **the contract of `Pattern::matches` holds of every tree over the real leaves, on every token list** -/
@@ -2204,6 +2238,7 @@ theorem leaf_ps (env : Env) : (l : Leaf) → l.phrase = true → PS (l.matcher e
   | .nominalPhrase, h => by cases h
   | .impliesQuantity, h => by cases h
   | .splitCompound _, h => by cases h
+  | .closure _, h => by cases h
 
 theorem seqGo_ge (src : List Char) : ∀ (ps : List Matcher) (acc : Nat) (ts : List Tok) (n : Nat),
     seqGo src ps acc ts = .ok n → n = 0 ∨ acc ≤ n
